@@ -279,6 +279,10 @@ func idents() {
 		r["cppType"] = cppcommon.TypeIdentifierName(n)
 		r["pyType"] = pythoncommon.TypeIdentifierName(n)
 		r["matlabType"] = matlabcommon.TypeIdentifierName(n)
+		step := &dsl.ProtocolStep{Name: n}
+		r["cppWriterMethods"] = []string{cppcommon.ProtocolWriteMethodName(step), cppcommon.ProtocolWriteImplMethodName(step),
+			cppcommon.ProtocolWriteEndMethodName(step), cppcommon.ProtocolWriteEndImplMethodName(step)}
+		r["cppReaderMethods"] = []string{cppcommon.ProtocolReadMethodName(step), cppcommon.ProtocolReadImplMethodName(step)}
 		enc.Encode(r)
 	}
 }
